@@ -33,10 +33,15 @@ pub proof fn lemma_walk_len<'a, P>(array: &'a Vec<Vec<P>>, n: usize, m: usize, p
 {
     reveal_with_fuel(AggregatedGensIter::walk, 2);
     if p >= m {
+        assert(AggregatedGensIter::walk(array, n, m, p, g) =~= Seq::<&P>::empty());
     } else if g >= n {
         lemma_walk_len(array, n, m, p + 1, 0);
+        assert(AggregatedGensIter::walk(array, n, m, p, g) == AggregatedGensIter::walk(array, n, m, p + 1, 0));
         assert((m - p) * n - n == (m - (p + 1)) * n) by(nonlinear_arith);
+        if p + 1 >= m { assert((m - p) * n - g == 0) by(nonlinear_arith) requires p + 1 == m, g == n; }
     } else {
         lemma_walk_len(array, n, m, p, g + 1);
+        assert(AggregatedGensIter::walk(array, n, m, p, g) == seq![&array@[p]@[g]] + AggregatedGensIter::walk(array, n, m, p, g + 1));
+        assert((m - p) * n >= n) by(nonlinear_arith) requires m - p >= 1, n >= 0;
     }
 }
